@@ -38,7 +38,7 @@ func checkC03Writes(w *World, r *Report, o *Own) { checkOwnWrites(w, r, o, "C03.
 // checkOwnWrites is the ownership rule; it is also run under C04 (uncommitted writes must not reach published storage:
 // isolation) and C05 (published storage is never written: race-freedom of lock-free readers).
 func checkOwnWrites(w *World, r *Report, o *Own, id string) {
-	ru := r.Rule(id, "every write hits private storage: each store to a node field, to an element of a []*node, and each in-place slice operation (sort, copy, clear, append) on a []*node targets storage that is fresh or transaction-private; functions writing through a parameter pass the obligation to each of their call sites; the writable cache only receives deep-private nodes", 50)
+	ru := r.Rule(id, "every write hits private storage: each store to a node field, to an element of a []*node, and each in-place slice operation (sort, copy, clear, append) on a []*node targets storage that is fresh or transaction-private; functions writing through a parameter pass the obligation to each of their call sites; the writable cache only receives deep-private nodes", 25)
 	ru.Idiom("new(node) / &node{...} initialised in place", "clone(): make+copy of the children", "make + copy / make(0,n) + append for root sets",
 		"s[i] = new(node); s[i].f = ... in one block (slot forwarding)", "_, ok := writable.Get(p) with ok (member of the cache)", "p == nil")
 	seenFn := map[string]bool{}
@@ -90,7 +90,7 @@ func checkOwnWrites(w *World, r *Report, o *Own, id string) {
 }
 
 func checkC03Search(w *World, r *Report, o *Own) {
-	ru := r.Rule("C03.2", "the copy-on-write search clones the whole path: the parents it hands out (fields p, pp, ppp of its result) are, on every feasible path, nil, a fresh deep clone or a member of the writable cache; the matched node itself is shared and is never written", 4)
+	ru := r.Rule("C03.2", "the copy-on-write search clones the whole path: the parents it hands out (fields p, pp, ppp of its result) are, on every feasible path, nil, a fresh deep clone or a member of the writable cache; the matched node itself is shared and is never written", 2)
 	search := w.Method("tXn", "copyOnWriteSearch")
 	sum := o.summary(search)
 	for _, f := range []string{"p", "pp", "ppp"} {
@@ -110,7 +110,7 @@ func checkC03Search(w *World, r *Report, o *Own) {
 // checkC03CacheReset: every tXn method through which the current root set escapes into a longer-lived value drops
 // the writable cache on all paths.
 func checkC03CacheReset(w *World, r *Report, o *Own) {
-	ru := r.Rule("C03.3b", "the writable cache is dropped at every snapshot point: each method of the inner transaction that lets its root set escape (returns it, or stores it into another tree/transaction object) sets writable = nil on every path", 3)
+	ru := r.Rule("C03.3b", "the writable cache is dropped at every snapshot point: each method of the inner transaction that lets its root set escape (returns it, or stores it into another tree/transaction object) sets writable = nil on every path", 2)
 	inner := w.FoxType("tXn")
 	rootF := w.Field(inner, "root")
 	wrF := w.Field(inner, "writable")
@@ -195,7 +195,7 @@ func mustStoreBeforeReturn(fn *ssa.Function, pred func(*ssa.Store) bool) string 
 // checkC03RootEscape: outside the inner transaction's own methods its root set is used only for immediate lookups,
 // on read-only transactions, or through snapshot()/clone().
 func checkC03RootEscape(w *World, r *Report, o *Own) {
-	ru := r.Rule("C03.3c", "outside the inner transaction's methods, its live root set is only passed to a lookup, or escapes on a path where the transaction is read-only; write transactions hand out snapshot()/clone() instead", 4)
+	ru := r.Rule("C03.3c", "outside the inner transaction's methods, its live root set is only passed to a lookup, or escapes on a path where the transaction is read-only; write transactions hand out snapshot()/clone() instead", 2)
 	inner := w.FoxType("tXn")
 	rootF := w.Field(inner, "root")
 	p := newProto(w)
@@ -261,7 +261,7 @@ func checkC03RootEscape(w *World, r *Report, o *Own) {
 
 // checkC03RouteImmutable: Route fields are written only while the route is built.
 func checkC03RouteImmutable(w *World, r *Report) {
-	ru := r.Rule("C03.4", "routes are immutable after construction: Route fields are stored only by NewRoute (on the route it allocated) and by option closures receiving it through the sealed option; route options are applied only by NewRoute", 12)
+	ru := r.Rule("C03.4", "routes are immutable after construction: Route fields are stored only by NewRoute (on the route it allocated) and by option closures receiving it through the sealed option; route options are applied only by NewRoute", 6)
 	route := w.FoxType("Route")
 	st := route.Underlying().(*types.Struct)
 	fields := map[*types.Var]bool{}
@@ -310,7 +310,7 @@ func checkC03RouteImmutable(w *World, r *Report) {
 
 // checkC03NoBackdoor: no unsafe / linkname, node types never cross the API.
 func checkC03NoBackdoor(w *World, r *Report, o *Own) {
-	ru := r.Rule("C03.5", "assumption checks: package fox does not import unsafe, and no exported function, method or type exposes node-typed values", 2)
+	ru := r.Rule("C03.5", "assumption checks: package fox does not import unsafe, and no exported function, method or type exposes node-typed values", 1)
 	usesUnsafe := false
 	for _, imp := range w.Fox.Types.Imports() {
 		if imp.Path() == "unsafe" {
